@@ -24,23 +24,37 @@ def _size(mnem):
     return SIZES.get(mnem, 8)
 
 
-def run(tmp, seed, rounds, ENV, HARNESS, overlay, log):
-    """-> dict(ok, inconclusive, summary, violations[list of str], witness)"""
-    res = dict(inconclusive=None, violations=[], summary={}, witness=None)
-    probe = os.path.join(tmp, "asmprobe")
-    cmd = ["go", "build", "-o", probe, "-tags", "verif,verif_mul"]
+def _build(tmp, ENV, HARNESS, overlay, name, pkg, tags):
+    probe = os.path.join(tmp, name)
+    cmd = ["go", "build", "-o", probe]
+    if tags:
+        cmd += ["-tags", tags]
     if overlay:
         cmd += ["-overlay", overlay]
-    cmd.append("./cmd/asmprobe")
+    cmd.append(pkg)
     r = subprocess.run(cmd, cwd=HARNESS, env=ENV, stdout=subprocess.PIPE, stderr=subprocess.STDOUT, text=True)
-    if r.returncode != 0:
-        res["inconclusive"] = "asmprobe does not build (hook group verif_mul unavailable on this tree?): " + r.stdout[-800:]
-        return res
+    return (probe if r.returncode == 0 else None), r.stdout
+
+
+def run(tmp, seed, rounds, ENV, HARNESS, overlay, log):
+    """-> dict(inconclusive, summary, violations[list of str], witness)"""
+    res = dict(inconclusive=None, violations=[], summary={}, witness=None)
+    probe, out1 = _build(tmp, ENV, HARNESS, overlay, "asmprobe", "./cmd/asmprobe", "verif,verif_mul")
+    mode = "hooks (caller-built padded tables, chosen index)"
+    if probe is None:
+        # the hook group does not build on this tree (renamed / re-typed internals):
+        # drive the same routines through the public API instead
+        probe, out2 = _build(tmp, ENV, HARNESS, overlay, "asmprobepub", "./cmd/asmprobepub", "")
+        mode = "public API (ScalarMult / ScalarBaseMult), hook group verif_mul unavailable"
+        if probe is None:
+            res["inconclusive"] = "neither probe builds: " + out1[-400:] + " / " + out2[-400:]
+            return res
+    res["summary"]["probe"] = mode
     out = os.path.join(tmp, "asmtrace.jsonl")
-    e = dict(ENV, ASMTRACE_OUT=out, GODEBUG="asyncpreemptoff=1")
+    e = dict(ENV, ASMTRACE_OUT=out, ASMTRACE_PER_INDEX=str(rounds), GODEBUG="asyncpreemptoff=1")
     try:
         g = subprocess.run(["gdb", "-q", "-batch", "-nx", "-x", os.path.join(HERE, "asmtrace_gdb.py"), "--args", probe, str(seed), str(rounds)],
-                           env=e, stdout=subprocess.PIPE, stderr=subprocess.STDOUT, text=True, timeout=1200, cwd=tmp)
+                           env=e, stdout=subprocess.PIPE, stderr=subprocess.STDOUT, text=True, timeout=2400, cwd=tmp)
     except (OSError, subprocess.TimeoutExpired) as ex:
         res["inconclusive"] = "gdb could not be run: %s" % ex
         return res
@@ -51,7 +65,7 @@ def run(tmp, seed, rounds, ENV, HARNESS, overlay, log):
     errs = [c["error"] for c in calls if "error" in c]
     calls = [c for c in calls if "error" not in c]
     if errs or not calls:
-        res["inconclusive"] = "assembly routines not found in this build (%s); gdb: %s" % ("; ".join(errs), g.stdout[-300:])
+        res["inconclusive"] = "assembly lookup routines not present under their expected names in this build (%s)" % ("; ".join(errs) or g.stdout[-300:])
         return res
     if "asmprobe done" not in g.stdout:
         res["inconclusive"] = "probe did not run to completion under gdb: " + g.stdout[-600:]
@@ -59,51 +73,93 @@ def run(tmp, seed, rounds, ENV, HARNESS, overlay, log):
     return analyse(calls, rounds, res)
 
 
+def _roles(c, dsz):
+    """Which argument word is the table, the destination, the index: inferred from
+    the accesses (the destination is the pointer argument that is written to)."""
+    args = c["args"]
+    small = [i for i, a in enumerate(args) if a < 4096]
+    if len(small) != 1:
+        return None
+    ptrs = [i for i in range(3) if i != small[0]]
+    writes = [a for t in c["trace"] for rw, a in t[2] if rw == "W"]
+    cand = [i for i in ptrs if any(args[i] <= a < args[i] + dsz for a in writes)]
+    if len(cand) != 1:
+        return None
+    dst = cand[0]
+    tbl = [i for i in ptrs if i != dst][0]
+    return dict(idx=args[small[0]], tbl=args[tbl], dst=args[dst])
+
+
 def analyse(calls, rounds, res):
     steps = 0
     for kind, (stride, nent, dsz) in GEOM.items():
         cs = [c for c in calls if c["kind"] == kind]
-        idxs = sorted(set(c["idx"] for c in cs))
         fp = {}
+        idxs = set()
+        first = None
         for c in cs:
             steps += c["steps"]
-            if not c["returned"]:
-                res["violations"].append("%s lookup, index %d: did not return within %d instructions" % (kind, c["idx"], c["steps"]))
-                res["witness"] = res["witness"] or c
+            ro = _roles(c, dsz)
+            if ro is None:
+                res["inconclusive"] = "%s lookup: cannot tell table / destination / index apart from the arguments %s" % (kind, c["args"])
                 continue
-            h = hashlib.sha256(json.dumps(c["trace"]).encode()).hexdigest()[:16]
-            fp.setdefault(h, []).append(c)
+            idx = ro["idx"]
+            idxs.add(idx)
+            if not c["returned"]:
+                res["violations"].append("%s lookup, index %d: did not return within %d instructions" % (kind, idx, c["steps"]))
+                res["witness"] = res["witness"] or dict(kind=kind, idx=idx)
+                continue
+            bases = [("tbl", ro["tbl"], stride * nent), ("dst", ro["dst"], dsz), ("sp", c["sp"], 32)]
+            rel = []
             written = set()
             for pcoff, mnem, mems in c["trace"]:
-                for rw, name, off in mems:
+                rm = []
+                for rw, a in mems:
                     sz = _size(mnem)
+                    best = None
+                    # containment first (the destination may itself live on the stack,
+                    # right next to the argument frame), nearest base otherwise
+                    for name, b, size in (bases[2], bases[1], bases[0]):
+                        if b <= a and a + sz <= b + size:
+                            best = (name, a - b)
+                            break
+                    if best is None:
+                        for name, b, size in bases:
+                            if b - 4096 <= a < b + size + 4096:
+                                if best is None or abs(a - b) < abs(best[1]):
+                                    best = (name, a - b)
+                    name, off = best or ("abs", a)
+                    rm.append([rw, name, off])
                     if rw == "W":
                         if name != "dst" or off < 0 or off + sz > dsz:
-                            res["violations"].append("C19: %s lookup, index %d: instruction +%d (%s) writes %d bytes at %s%+d, outside the %d coordinate bytes of the destination" % (kind, c["idx"], pcoff, mnem, sz, name, off, dsz))
-                            res["witness"] = res["witness"] or dict(kind=kind, idx=c["idx"], pc=pcoff, mnem=mnem, mem=[rw, name, off])
+                            res["violations"].append("C19: %s lookup, index %d: instruction +%d (%s) writes %d bytes at %s%+d, outside the %d coordinate bytes of the destination" % (kind, idx, pcoff, mnem, sz, name, off, dsz))
+                            res["witness"] = res["witness"] or dict(kind=kind, idx=idx, pc=pcoff, mnem=mnem, mem=[rw, name, off])
                         else:
                             written.update(range(off, off + sz))
                     else:
                         ok = (name == "tbl" and 0 <= off and off + sz <= stride * nent) or (name == "sp" and 0 <= off and off + sz <= 32) or (name == "dst" and 0 <= off and off + sz <= dsz)
                         if not ok:
-                            res["violations"].append("C19: %s lookup, index %d: instruction +%d (%s) reads %d bytes at %s%+d, outside the table / argument frame" % (kind, c["idx"], pcoff, mnem, sz, name, off))
-                            res["witness"] = res["witness"] or dict(kind=kind, idx=c["idx"], pc=pcoff, mnem=mnem, mem=[rw, name, off])
-            if c["returned"] and written != set(range(dsz)):
-                res["violations"].append("C19: %s lookup, index %d: wrote %d of the %d coordinate bytes" % (kind, c["idx"], len(written), dsz))
+                            res["violations"].append("C19: %s lookup, index %d: instruction +%d (%s) reads %d bytes at %s%+d, outside the table / argument frame" % (kind, idx, pcoff, mnem, sz, name, off))
+                            res["witness"] = res["witness"] or dict(kind=kind, idx=idx, pc=pcoff, mnem=mnem, mem=[rw, name, off])
+                rel.append([pcoff, mnem, rm])
+            if written != set(range(dsz)):
+                res["violations"].append("C19: %s lookup, index %d: wrote %d of the %d coordinate bytes" % (kind, idx, len(written), dsz))
+            first = first or rel
+            h = hashlib.sha256(json.dumps(rel).encode()).hexdigest()[:16]
+            fp.setdefault(h, []).append((idx, rel))
         if len(fp) > 1:
             groups = sorted(fp.values(), key=len, reverse=True)
-            a, b = groups[0][0], groups[1][0]
-            first = next((i for i in range(min(len(a["trace"]), len(b["trace"]))) if a["trace"][i] != b["trace"][i]), min(len(a["trace"]), len(b["trace"])))
+            (ia, a), (ib, b) = groups[0][0], groups[1][0]
+            k = next((i for i in range(min(len(a), len(b))) if a[i] != b[i]), min(len(a), len(b)))
             res["violations"].append("C17: %s lookup: %d distinct instruction/access traces over indices %s; index %d and index %d diverge at step %d (%s vs %s)" % (
-                kind, len(fp), idxs, a["idx"], b["idx"], first,
-                a["trace"][first] if first < len(a["trace"]) else "<end>", b["trace"][first] if first < len(b["trace"]) else "<end>"))
-            res["witness"] = res["witness"] or dict(kind=kind, idx_a=a["idx"], idx_b=b["idx"], step=first)
-        res["summary"][kind] = dict(calls=len(cs), indices=idxs, rounds=rounds, distinct_traces=len(fp),
+                kind, len(fp), sorted(idxs), ia, ib, k, a[k] if k < len(a) else "<end>", b[k] if k < len(b) else "<end>"))
+            res["witness"] = res["witness"] or dict(kind=kind, idx_a=ia, idx_b=ib, step=k)
+        res["summary"][kind] = dict(calls=len(cs), indices=sorted(idxs), per_index=rounds, distinct_traces=len(fp),
                                     instructions_per_call=(cs[0]["steps"] if cs else 0),
-                                    reads_per_call=sum(1 for t in (cs[0]["trace"] if cs else []) for m in t[2] if m[0] == "R"),
-                                    writes_per_call=sum(1 for t in (cs[0]["trace"] if cs else []) for m in t[2] if m[0] == "W"))
-        if idxs != list(range(16)):
-            res["inconclusive"] = "%s lookup traced for indices %s only" % (kind, idxs)
+                                    reads_per_call=sum(1 for t in (first or []) for m in t[2] if m[0] == "R"),
+                                    writes_per_call=sum(1 for t in (first or []) for m in t[2] if m[0] == "W"))
+        if sorted(idxs) != list(range(16)) and not res["inconclusive"]:
+            res["inconclusive"] = "%s lookup traced for indices %s only" % (kind, sorted(idxs))
     res["summary"]["instructions_stepped"] = steps
     return res
 
